@@ -624,11 +624,23 @@ func wireRun(sc wireScenario) vx.RunFunc {
 			}
 			cfg.Path = src
 			cfg.Hrefs = map[string]string{"upload": hrefBase + "/storage/" + wireOid}
-			if x.In(2) == 0 {
+			cfg.Expiry = map[string]string{}
+			// validity the batch response advertised for each action: verify {absent, no expiry, valid, expired, inside the
+			// safety margin} x upload {no expiry, expired, inside the margin}
+			switch v := x.In(5); v {
+			case 0:
 				cfg.Hrefs["verify"] = hrefBase + "/verify/" + wireOid
 				setup = "verify-action"
-			} else {
+			case 1:
 				setup = "no-verify-action"
+			default:
+				cfg.Hrefs["verify"] = hrefBase + "/verify/" + wireOid
+				cfg.Expiry["verify"] = wireExpiryClasses[v-2]
+				setup = "verify-action(" + cfg.Expiry["verify"] + ")"
+			}
+			if u := x.In(3); u > 0 {
+				cfg.Expiry["upload"] = wireExpiryClasses[u]
+				setup += ",upload-action(" + cfg.Expiry["upload"] + ")"
 			}
 		} else {
 			ps := wireParts[x.In(len(wireParts))]
@@ -640,6 +652,10 @@ func wireRun(sc wireScenario) vx.RunFunc {
 			cfg.Path = final
 			cfg.Hrefs = map[string]string{"download": hrefBase + "/storage/" + wireOid}
 			setup = "part=" + ps.Name
+			if d := x.In(3); d > 0 {
+				cfg.Expiry = map[string]string{"download": wireExpiryClasses[d]}
+				setup += ",download-action(" + cfg.Expiry["download"] + ")"
+			}
 		}
 		cfg.BeforeAttempt = func(i int) { c.mu.Lock(); c.attempt = i; c.mu.Unlock() }
 		cfg.Progress = func(total, soFar int64, sinceLast int) {
@@ -732,6 +748,7 @@ func wireRun(sc wireScenario) vx.RunFunc {
 		}
 		cnt := map[string]int64{}
 		res.Violations = wireJudge(sc, reqs, overlaps, obs.Results, cnt)
+		res.Violations = append(res.Violations, wireJudgeExpiry(sc, cfg.Expiry, reqs, obs.Results, cnt)...)
 		for _, r := range reqs {
 			cnt["wire.requests."+r.Method+"."+r.Site]++
 			if r.Released != "" {
@@ -749,6 +766,57 @@ func wireRun(sc wireScenario) vx.RunFunc {
 		res.States = []uint64{vx.Hash64(sc.Name, setup, strings.Join(script, ";"), res.Outcome)}
 		return res
 	}
+}
+
+// validity classes of an advertised action (see tq.VerifAdapterCfg.Expiry); index 0 = valid, then the two expired forms
+var wireExpiryClasses = []string{"valid", "expired-at", "margin-in"}
+
+// wireJudgeExpiry: the clause "an action whose advertised expiry has passed is never used but re-requested", at the adapter:
+// no request reaches the href of an action that was expired (or inside the safety margin) when the attempt was handed over,
+// and the attempt that needed it ends in a retriable error, which is what sends the object back to the batch API.
+func wireJudgeExpiry(sc wireScenario, expiry map[string]string, reqs []*wireReq, results []tq.VerifAdapterResult, cnt map[string]int64) []vx.Violation {
+	var out []vx.Violation
+	for rel, class := range expiry {
+		if class == "valid" {
+			continue
+		}
+		site := "storage"
+		if rel == "verify" {
+			site = "verify"
+		}
+		cnt["oracle.count.expired_action_cases."+rel]++
+		used := 0
+		for _, r := range reqs {
+			if r.Site == site {
+				used++
+			}
+		}
+		ad := strings.TrimPrefix(sc.Name, "adapters-")
+		if used > 0 {
+			out = append(out, vx.Violation{Fingerprint: "C15:wire:expired-action-used:" + rel + ":" + ad,
+				Msg: fmt.Sprintf("the %s action was advertised as %s, yet %d request(s) were sent to its href", rel, class, used)})
+		}
+		// the attempt that needs the expired action must not report success; for the storage action (needed at once) it must
+		// end in a retriable error, which is what sends the object back to the batch API.  For the verify action only
+		// "success reported after the bytes were sent and accepted" is judged: a failed attempt may have failed at the storage
+		// request before verify was due, and tus skips the whole upload (verify included) when HEAD says it is complete.
+		last := results[len(results)-1]
+		sent := false // the last attempt sent the object's bytes and the server accepted them: verification is due
+		for _, r := range reqs {
+			if r.Attempt == len(results) && r.Site == "storage" && (r.Method == "PUT" || r.Method == "PATCH") && r.ans.Kind == "ok" {
+				sent = true
+			}
+		}
+		switch {
+		case rel == "verify" && last.Err == "" && sent:
+			out = append(out, vx.Violation{Fingerprint: "C15:wire:expired-action-not-rerequested:" + rel + ":" + ad,
+				Msg: fmt.Sprintf("the verify action was advertised as %s, yet the upload attempt reported success instead of a retriable error", class)})
+		case rel != "verify" && !(last.Err != "" && last.Retriable):
+			out = append(out, vx.Violation{Fingerprint: "C15:wire:expired-action-not-rerequested:" + rel + ":" + ad,
+				Msg: fmt.Sprintf("the %s action was advertised as %s; the attempt must end in a retriable error so that the queue asks the batch API again, but it reported %q (retriable=%v)", rel, class, last.Err, last.Retriable)})
+		}
+	}
+	return out
 }
 
 func firstLineOf(s string) string {
@@ -960,8 +1028,10 @@ func wireBounds(sc wireScenario, env int) map[string]interface{} {
 			pn = append(pn, p.Name)
 		}
 		b["part_states"] = pn
+		b["download_action_expiry"] = []string{"none", "expired (expires_at 1 h ago)", "inside the 5 s margin (expires_in 2)"}
 	} else {
-		b["verify_action"] = []string{"present", "absent"}
+		b["verify_action"] = []string{"present without expiry", "absent", "present valid (+1 h)", "present expired (expires_at 1 h ago)", "present inside the 5 s margin (expires_in 2)"}
+		b["upload_action_expiry"] = []string{"none", "expired (expires_at 1 h ago)", "inside the 5 s margin (expires_in 2)"}
 	}
 	return b
 }
